@@ -248,9 +248,13 @@ func (e *runEnv) historyProperty(t *rapid.T) {
 		} else {
 			a = g.GenAction(t)
 		}
+		denomBefore := ex.W.Cfg().baseDenom()
 		rec, vs := ex.Do(a)
 		g.Observe(rec)
 		kinds[a.Kind]++
+		if a.Kind == KSetParams && rec.OK && ex.W.Cfg().baseDenom() != denomBefore {
+			kinds["set_params(base_denom)"]++
+		}
 		if rec.OK {
 			kindsOK[a.Kind]++
 		} else if os.Getenv("VERIF_ERRHIST") != "" {
